@@ -86,36 +86,36 @@ def opt_ids(term, acc=None):
 
 
 def features(term, patches):
-    """domains of the known findings"""
+    """domains of the known findings (what is left after the repairs of the patching machinery):
+    - a directly held child whose FIRST occurrence (in pickling order) is not that attribute itself but lies inside an
+      earlier attribute of the same holder: it is announced by the holder, yet restored while another entry is on top;
+    - a dictionary patch addressed at a child which is only referred to from there (restored elsewhere)."""
     f = set()
 
-    def walk(t, direct_parent_opt, under_container):
+    def walk(t, seen, p):
+        # mirrors the bookkeeping of remote_reduce: `seen` = ids met or announced so far
         if t[0] == 'opt':
-            if under_container and patches:
-                f.add('held-through-container-or-plain-object-with-patches')
-            if not t[2]:
-                f.add('no-setstate')
-            names = [k for k, v in t[3] if v[0] in ('opt', 'ref')]
-            if len(names) >= 2:
-                f.add('two-or-more-direct-opt-in-children')
-            if any(v[0] == 'ref' for k, v in t[3]):
-                f.add('direct-opt-in-child-is-a-memo-reference')
+            seen.add(t[1])
+            fresh_refs = []
             for k, v in t[3]:
-                walk(v, True, False)
+                if v[0] in ('opt', 'ref') and v[1] not in seen:
+                    seen.add(v[1])
+                    if v[0] == 'ref':
+                        fresh_refs.append(k)
+            if fresh_refs:
+                f.add('direct-child-first-occurs-inside-an-earlier-attribute')
+            for k, v in t[3]:
+                sub = (p or {}).get(k) if isinstance(p, dict) else None
+                if v[0] == 'ref' and isinstance(sub, dict):
+                    f.add('dict-patch-for-a-child-that-is-only-referred-to')
+                walk(v, seen, sub if (isinstance(sub, dict) and v[0] == 'opt') else None)
         elif t[0] == 'lst':
             for x in t[1]:
-                walk(x, False, True)
+                walk(x, seen, None)
         elif t[0] == 'pobj':
             for k, v in t[1]:
-                walk(v, False, True)
-    walk(term, False, term[0] != 'opt')
-    if term[0] != 'opt' and patches:
-        f.add('top-level-not-opt-in-with-patches')
-
-    def depth(d):
-        return 1 + max([depth(v) for v in d.values() if isinstance(v, dict)] or [0])
-    if patches and depth(patches) >= 3:
-        f.add('patch-dict-nested-two-levels-or-more')
+                walk(v, seen, None)
+    walk(term, set(), patches if term[0] == 'opt' else None)
     return f
 
 
@@ -163,6 +163,23 @@ def read_heap(real_dicts, addr_of):
     return out
 
 
+def coq_pdict(pt):
+    """nested patch dictionary (integer keys) as a Coq term of type pdict"""
+    def pv(v):
+        return f'PDict {coq_pdict(v)}' if isinstance(v, dict) else f'PVal {v}'
+    return '[' + '; '.join(f'({k}, {pv(v)})' for k, v in (pt or {}).items()) + ']'
+
+
+def real_patches(pt):
+    """the dictionary handed to loads: attribute names as keys, nested dictionaries as they are"""
+    return {f'f{k}': (real_patches(v) if isinstance(v, dict) else v) for k, v in pt.items()}
+
+
+def snapshot(d):
+    """structure AND identity of a (nested) dictionary of the caller, to be compared after the call"""
+    return [(k, (id(v), snapshot(v)) if isinstance(v, dict) else ('val', repr(v))) for k, v in d.items()]
+
+
 def coq_pv(p):
     return {'val': 'PVal {}', 'dict': 'PDictRef {}%nat', 'obj': 'PObjRef {}%nat'}[p[0]].format(p[1])
 
@@ -188,15 +205,64 @@ def dump_term(term):
     return data, get_log
 
 
+class RecreateLog:
+    """records, in order, which reduce callable the pickler chose for every opt-in instance (announced or not) and the
+    children names it passed - read while the stream is loaded (the callables are looked up by name at load time)"""
+
+    def __enter__(self):
+        from pyworkers._remote_pickle.state import RemoteState
+        self.rs = RemoteState
+        self.saved = {}
+        self.calls = []
+        for nm, flag in (('recreate_obj_and_patch_setstate', True), ('recreate_unannounced_obj_and_patch_setstate', False)):
+            orig = RemoteState.__dict__.get(nm)
+            if orig is None:
+                continue
+            self.saved[nm] = orig
+            fn = orig.__func__ if isinstance(orig, staticmethod) else orig
+
+            def wrapper(newobj, newargs, children_names, _fn=fn, _flag=flag, _nm=nm):
+                if not (self.calls and self.calls[-1][2] == 'inner'):
+                    self.calls.append(([name_key(k) for k in children_names], _flag, 'outer'))
+                    if not _flag:
+                        # the unannounced variant calls the announced one itself: do not count that twice
+                        self.calls[-1] = (self.calls[-1][0], _flag, 'inner')
+                        try:
+                            return _fn(newobj, newargs, children_names)
+                        finally:
+                            self.calls[-1] = (self.calls[-1][0], _flag, 'outer')
+                    return _fn(newobj, newargs, children_names)
+                return _fn(newobj, newargs, children_names)
+            setattr(RemoteState, nm, staticmethod(wrapper))
+        # classes without __setstate__ get their state through RemoteState.default_setstate: observe it there
+        orig = RemoteState.__dict__.get('default_setstate')
+        if orig is not None:
+            self.saved['default_setstate'] = orig
+            dfn = orig.__func__ if isinstance(orig, staticmethod) else orig
+
+            def dwrap(obj, state, _fn=dfn):
+                if isinstance(state, dict):
+                    LOG.append(('setstate', state.get('_id'), dict(state)))
+                return _fn(obj, state)
+            RemoteState.default_setstate = staticmethod(dwrap)
+        return self
+
+    def __exit__(self, *a):
+        for nm, orig in self.saved.items():
+            setattr(self.rs, nm, orig)
+
+
 def run_loads(data, real_patches, addr_of):
     """remote_pickle.loads(data, extra_kwargs=real_patches); observation of what every instance was restored with."""
     from pyworkers import remote_pickle
     del LOG[:]
-    try:
-        back = remote_pickle.loads(data, extra_kwargs=real_patches)
-        err = None
-    except BaseException as e:   # noqa
-        back, err = None, type(e).__name__
+    with RecreateLog() as rl:
+        try:
+            back = remote_pickle.loads(data, extra_kwargs=real_patches)
+            err = None
+        except BaseException as e:   # noqa
+            back, err = None, type(e).__name__
+    recreates = [(names, flag) for names, flag, _ in rl.calls]
     restored = []
     for e in LOG:
         if e[0] != 'setstate':
@@ -207,15 +273,15 @@ def run_loads(data, real_patches, addr_of):
                 continue
             if isinstance(v, (OptBase, OptNoSet)):
                 r = ('obj', v.__dict__.get('_id'))
-            elif isinstance(v, dict) and id(v) in addr_of:
-                r = ('dict', addr_of[id(v)])
+            elif isinstance(v, dict):
+                r = ('dict',)
             elif isinstance(v, int):
                 r = ('atom', v)
             else:
                 r = ('cont',)
             fields.append((name_key(k), r))
         restored.append((e[1], fields))
-    return dict(back=back, err=err, restored=restored)
+    return dict(back=back, err=err, restored=restored, recreates=recreates)
 
 
 def coq_rval(r):
@@ -224,7 +290,7 @@ def coq_rval(r):
     if r[0] == 'obj':
         return f'RObj {r[1]}%nat'
     if r[0] == 'dict':
-        return f'RDict {r[1]}%nat'
+        return 'RDictV []'
     return 'RCont'
 
 
@@ -308,6 +374,7 @@ def spec_states(term, patches):
     """What C14/C15 say every opt-in instance must be restored with: {id: {k: rval}}.
     Patches address the top-level object; a dict under k addresses the direct child stored under k."""
     out = {}
+    late = []
 
     def val(t):
         if t[0] == 'atom':
@@ -321,12 +388,15 @@ def spec_states(term, patches):
             st = {k: val(v) for k, v in t[3]}
             for k, v in (p or {}).items():
                 child = dict(t[3]).get(k)
-                if isinstance(v, dict) and child is not None and child[0] == 'opt':
+                if isinstance(v, dict) and child is not None and child[0] in ('opt', 'ref'):
                     continue        # addressed at the child, which stays in place
                 st[k] = ('patchdict',) if isinstance(v, dict) else ('atom', v)
             out[t[1]] = st
             for k, v in t[3]:
                 sub = (p or {}).get(k)
+                if isinstance(sub, dict) and v[0] == 'ref':
+                    # strict reading: the dictionary addresses the child stored under k, wherever that child is restored
+                    late.append((v[1], sub))
                 walk(v, sub if isinstance(sub, dict) and v[0] == 'opt' else None)
         elif t[0] == 'lst':
             for x in t[1]:
@@ -335,4 +405,8 @@ def spec_states(term, patches):
             for k, v in t[1]:
                 walk(v, None)
     walk(term, patches if term[0] == 'opt' else None)
+    for i, sub in late:
+        if i in out:
+            for k, v in sub.items():
+                out[i][k] = ('patchdict',) if isinstance(v, dict) else ('atom', v)
     return out
